@@ -110,7 +110,9 @@ def _ampm(ctx, rep, eng):
                 min_leaves = [l for l in summ.order if l[0] == "int" and l[1][2] == "minute"]
                 a_leaves = [l for l in summ.order if l[0] == "startswith" and l[2] == "a"]
                 p_leaves = [l for l in summ.order if l[0] == "startswith" and l[2] == "p"]
-                other = [l for l in summ.order if l not in hour_leaves + min_leaves + a_leaves + p_leaves]
+                from .relspec import str_chain
+                s_leaves = [l for l in summ.order if str_chain(l) and l[0] != "group" and g in str(l)]
+                other = [l for l in summ.order if l not in hour_leaves + min_leaves + a_leaves + p_leaves + s_leaves]
                 if len(hour_leaves) != 1 or other:
                     if other == [("ts",)] or all(l == ("ts",) for l in other):
                         pass
@@ -133,6 +135,8 @@ def _ampm(ctx, rep, eng):
                             try:
                                 for l in a_leaves + p_leaves:
                                     val[l] = _apply_str_ops(l[1], w).startswith(l[2])
+                                for l in s_leaves:
+                                    val[l] = _apply_str_ops(l, w)
                             except Undecided as e:
                                 und = str(e)
                                 continue
@@ -168,6 +172,8 @@ def _apply_str_ops(sym, word):
     if isinstance(sym, tuple) and len(sym) == 2 and sym[0] in ("lower", "upper", "strip", "lstrip", "rstrip",
                                                               "casefold", "title"):
         return getattr(_apply_str_ops(sym[1], word), sym[0])()
+    if isinstance(sym, tuple) and len(sym) == 4 and sym[0] == "slice" and sym[2] != "?":
+        return _apply_str_ops(sym[1], word)[sym[2]:sym[3]]
     raise Undecided("string operation outside the model before the am/pm test: {}".format(str(sym)[:60]))
 
 
@@ -255,9 +261,8 @@ def _latent(ctx, rep, eng, sweep):
     rep.add("latent-clock", cm.rel + "::ctparse_gen::option guards the rewrite", cm.where(gen), ok,
             "" if ok else "latent rewrite is not conditional on the latent_time option")
     # summary vs specification
-    from .relspec import stride
-    step = stride(len(sweep), 200 if len(sweep) < 5000 else 600)
-    tss = sweep[::step]
+    from .relspec import sample
+    tss = sample(sweep, 200 if len(sweep) < 5000 else 600)
     n = 0
     bad = None
     found = False
